@@ -41,6 +41,33 @@ def is_index_literal(s):
     return bool(re.fullmatch(r"0|[1-9][0-9]{0,9}", s)) and int(s) < 2 ** 32 - 1
 
 
+def array_literals(fx, f, local, depth=0):
+    """the string literals of the array an iterator local ranges over (`["a", "b"].into_iter()`), or None"""
+    if depth > 10:
+        return None
+    ds = f.defs().get(local, [])
+    if len(ds) != 1:
+        return None
+    bi, si, rv = ds[0]
+    if si == "T":
+        if (rv[1].get("u") or "").endswith(("IntoIterator::into_iter", "::iter")) and rv[2] and rv[2][0][0] in ("c", "m") and not rv[2][0][1][1]:
+            return array_literals(fx, f, rv[2][0][1][0], depth + 1)
+        return None
+    if rv[0] in ("use",) and rv[1][0] in ("c", "m") and not rv[1][1][1]:
+        return array_literals(fx, f, rv[1][1][0], depth + 1)
+    if rv[0] == "ref" and rv[2][1] in ([], ["*"]):
+        return array_literals(fx, f, rv[2][0], depth + 1)
+    if rv[0] == "agg" and isinstance(rv[1], dict) and rv[1].get("k") == "array":
+        out = []
+        for o in rv[2]:
+            r = provenance(fx, f, o, depth + 1)
+            if not r or r[0] != "lit":
+                return None
+            out.append(r[1])
+        return out or None
+    return None
+
+
 def provenance(fx, f, op, depth=0):
     """('lit', text) | ('param', i) | ('call', callee) | ('multi-lit', [..]) | None"""
     if op[0] == "k":
@@ -80,6 +107,12 @@ def provenance(fx, f, op, depth=0):
             # a field of a tuple / struct local: all of whose definitions are literal aggregates?
             src = rv[1][1]
             idx = [e[1] for e in src[1] if isinstance(e, list) and e[0] == "f"]
+            # `for name in ["a", "b"]`: the Some payload of next() on an iterator over an array of literals
+            d0 = f.defs().get(src[0], [])
+            if len(d0) == 1 and d0[0][1] == "T" and (d0[0][2][1].get("u") or "").endswith("Iterator::next") and d0[0][2][2] and d0[0][2][2][0][0] in ("c", "m"):
+                al = array_literals(fx, f, d0[0][2][2][0][1][0])
+                if al:
+                    return ("multi-lit", al)
             lits = []
             for (b2, s2, r2) in f.defs().get(src[0], []):
                 if s2 != "T" and r2[0] == "agg" and idx and idx[0] < len(r2[2]):
@@ -361,10 +394,11 @@ def run(tier):
                         tests.append((t[4], false_t))
             # `if !visited.insert(id) { refuse }`: insert() answers whether the id was new - test and record in one call
             if re.search(r"HashSet::<[^>]*>::insert$", t[1].get("d", "")) and t[4] >= 0:
-                sw = ex.blocks[t[4]]["t"]
-                if sw[0] == "switch" and sw[1][0] in ("c", "m") and sw[1][1][0] == t[3][0]:
-                    tests.append((t[4], sw[3]))     # the `true` (newly inserted) edge
-                    inserts.append(sw[3])
+                from modlook import true_target
+                tt = true_target(ex, bi)     # the `true` (newly inserted) edge, through `!` and copies
+                if tt is not None:
+                    tests.append((t[4], tt))
+                    inserts.append(tt)
         inserts += [bi for bi, t in ex.calls() if re.search(r"HashSet::<[^>]*>::insert$", t[1].get("d", ""))]
         removes = [bi for bi, t in ex.calls() if re.search(r"HashSet::<[^>]*>::remove$", t[1].get("d", ""))]
         ck.anchor(bool(rec), "recursive call in the exporter")
